@@ -22,6 +22,10 @@ CHECKS = {
          "Program enumeration: every configuration tree with up to 3-5 (quick) / 4-6 (thorough) nodes over probe leaves, erroring leaves, state-changing leaves, fifo.Group (aggregating or not), priority.Group (priorities {0,1}), url/header/querystring/method/cookie filters with modifier and optional else, and 6 scope forms at every node, is rendered to JSON, parsed by the real parse.FromJSON and evaluated on requests and responses for every truth assignment of its filter conditions, against a reference interpreter written from the statement (trace order, error multiset, state); every node is also replaced by unknown names, unsupported/unimplemented scopes and syntactic corruptions (every prefix for small documents) and POSTed to a long-lived martianhttp.Modifier: 400, previous configuration fully in force, accepted ones replace completely.",
          "Reduced alphabets for the larger sizes; well-formed JSON of the wrong type not examined.",
          "bounded-exhaustive program (configuration tree) enumeration against a reference interpreter", "enum", "DESIGN.md §7 C12"),
+ "C13": ("model_checking",
+         "Part 1: every verifier-bearing configuration tree with <=3 (quick) / <=4 (thorough) nodes over the 7 verifiers, fifo.Group and filters (true branch, else branch, both), configured through martianhttp.Modifier and queried through verify.Handler/ResetHandler, run on every history of length <=4/5 over {traffic messages making each expectation met/unmet incl. API-marked ones, GET verify, POST reset} against a per-verifier list model. Part 2: 2-4 thread scenarios (traffic, query, reset) under the gosim scheduler, all interleavings for the small ones and preemption-bounded for the rest, interval oracle (nothing lost, duplicated, phantom or stale). Part 3 (auxiliary, free-running -race on the unrewritten tree): the same bodies, race reports in martian code are violations.",
+         "One filter type; same-kind leaves share parameters; the race pass is sampling (auxiliary, only because the statement says 'free of data races').",
+         "bounded-exhaustive program x history enumeration + stateless schedule enumeration (gosim) + auxiliary race-detector pass", "gosim", "DESIGN.md §7 C13"),
  "C14": ("model_checking",
          "Exhaustive enumeration of header multisets (Connection lines with comma lists over 6 tokens, fixed hop-by-hop subsets, listed and unlisted end-to-end headers, 12 Via chains incl. this instance at every position/line, X-Forwarded-* variants, Content-Length / Transfer-Encoding combinations, protocol/address/URL environments) as a union of full sub-products, for requests and responses, run on the real httpspec stack with a test context and a stated subset through the real proxy over loopback; reference model from the statement (hop-by-hop removal, untouched other headers, exactly one appended Via, X-Forwarded-* semantics, loop => 400 and not sent upstream, framing errors flagged); failures are minimised factor by factor into signatures.",
          "Union of sub-products rather than the full product; Proxy-Connection treated as don't-care; requests net/http itself refuses are counted, not judged.",
